@@ -109,7 +109,14 @@ def reroot_path(
         rel_fn = n.FileId(*filename.parts[1:])
     else:
         rel_fn = n.FileId(*docpath.parent.joinpath(filename).parts).collapse_dots()
-    return rel_fn, project_root.joinpath(rel_fn).resolve()
+    full_path = project_root.joinpath(rel_fn)
+    try:
+        full_path = full_path.resolve()
+    except RuntimeError:
+        # A symbolic link that loops back onto itself: leave the path as it is. Opening it
+        # fails with an OSError, which callers report like any other unreadable file.
+        pass
+    return rel_fn, full_path
 
 
 def is_relative_to(a: Path, b: Path) -> bool:
